@@ -986,10 +986,11 @@ def scenarios():
     return _base_scn4() + [ecdh_decrypt('Curve25519'), ecdh_decrypt('NIST')]
 
 
-def message_encrypt(supplied, already):
+def message_encrypt(supplied, already, pw_octets=False):
     """PGPMessage.encrypt (passphrase): iterated+salted S2K with the requested hash and cipher, session key drawn iff none is supplied,
     the whole message in one integrity-protected container (or, for an already encrypted message, one more session-key packet)"""
-    label = 'C03/PGPMessage.encrypt[session key %s%s]' % ('supplied in a bytearray' if supplied == 'bytearray' else 'supplied' if supplied else 'generated', ', message already encrypted' if already else '')
+    label = 'C03/PGPMessage.encrypt[session key %s%s%s]' % ('supplied in a bytearray' if supplied == 'bytearray' else 'supplied' if supplied else 'generated', ', message already encrypted' if already else '',
+                                                             ', passphrase given as octets of any length' if pw_octets else '')
     SK4, S2K = 'pgpy.packet.packets.SKESessionKeyV4', 'pgpy.packet.fields.String2Key'
 
     def gen(repo):
@@ -1027,7 +1028,8 @@ def message_encrypt(supplied, already):
         def set_count(ex, st, o, a):
             st.heap[('s2k', 'count')] = a[0]
             return [(st, E.VNone())]
-        PW, SK = E.VStr(z=z3.Const('PASSPHRASE', B)), z3.Const('SUPPLIED_SESSION_KEY', B)
+        # a passphrase may be given as text or as octets - of any length, also one that looks like key material: it is stretched all the same
+        PW, SK = (E.VBytes(z3.Const('PASSPHRASE_OCTETS', B)) if pw_octets else E.VStr(z=z3.Const('PASSPHRASE', B))), z3.Const('SUPPLIED_SESSION_KEY', B)
         kws = {'cipher': E.VInt(9, enum='pgpy.constants.SymmetricKeyAlgorithm'), 'hash': E.VInt(10, enum='pgpy.constants.HashAlgorithm')}
         skbuf = ex.new_buf(st, SK) if supplied == 'bytearray' else None
         for pi, (s, v) in enumerate(r.call(me, [PW] + ([skbuf if skbuf is not None else E.VBytes(SK)] if supplied else []), kws)):
@@ -1077,7 +1079,7 @@ _base_scn5 = scenarios
 
 def scenarios():
     return _base_scn5() + [message_encrypt(False, False), message_encrypt(True, False), message_encrypt(False, True), message_encrypt('bytearray', False),
-                           message_encrypt('bytearray', True)]
+                           message_encrypt('bytearray', True), message_encrypt(False, False, pw_octets=True)]
 
 
 def pkesk_decrypt_rsa():
